@@ -445,6 +445,20 @@ def run(ctx):
                 ctx.tick(n, ("energy_pattern", ver, pat[0] == pat[-1], len(set(pat))))
                 for c, e, o in v:
                     ctx.violation(c, {"kind": "mixed", "version": ver, "b": bb, "le": ll, "u": uu}, e, o)
+        # the aftermath of a refused call: a 6-event batch over all three angle classes with ONE energy outside the table,
+        # at every position in turn, then the valid batch (rotated) ON THE SAME OBJECT against its events one at a time
+        ab = [0.0, float(bax[0]) / 2, float(bax[7]), bmid, float(bax[-1]), math.radians(60.0)]
+        al = [float(lax[3]), 9.1, float(lax[10]), 7.77, 12.0, 8.0]
+        au = [0.37, 0.11, 0.83, 0.59, 0.5, 0.2]
+        for ppos in range(len(ab)):
+            pl = list(al); pl[ppos] = 12.5
+            e_call(ver, ab, pl, au)  # (refused: returns the exception text)
+            r = ppos + 1
+            bb, ll, uu = ab[r:] + ab[:r], al[r:] + al[:r], au[r:] + au[:r]
+            v = judge_mixed(ver, bb, ll, uu)
+            ctx.tick(len(ab), ("after_refused", ver, ppos))
+            for c, e, o in v:
+                ctx.violation(c, {"kind": "after_refused", "version": ver, "pos": ppos, "b": bb, "le": ll, "u": uu, "b0": ab, "le0": pl, "u0": au}, e, o)
         ctx.tick(48, ("views", ver))
         for c, e, o in judge_views(ver):
             ctx.violation(c, {"kind": "views", "version": ver}, e, o)
@@ -471,6 +485,11 @@ def replay(case):
 
         return pipeline.replay(case)
     k = case["kind"]
+    if k == "after_refused":
+        from nuspacesim.config import NssConfig  # noqa: F401  (a fresh sampler object for the replay)
+        _T.pop(case["version"], None) if "_T" in globals() else None
+        e_call(case["version"], case["b0"], case["le0"], case["u0"])
+        return judge_mixed(case["version"], case["b"], case["le"], case["u"])
     if k == "big_internal":
         return judge_big_internal(case["version"], case["n"])
     if k == "version_spellings":
